@@ -203,7 +203,7 @@ def real_tree(ctx, s, idx, rng):
     from .. import env
     if '/' in s or '\x00' in s or s in ('.', '..') or not s:
         return
-    root = env.mkscratch('c09-')
+    base, root = env.mknested('c09-')
     old_home = os.environ.get('HOME')
     try:
         sibs = [t for t in neighbours(s, rng)[:40] if '/' not in t and t not in ('.', '..', s) and '\x00' not in t][:12]
@@ -238,7 +238,7 @@ def real_tree(ctx, s, idx, rng):
             os.environ.pop('HOME', None)
         else:
             os.environ['HOME'] = old_home
-        shutil.rmtree(root, ignore_errors=True)
+        shutil.rmtree(base, ignore_errors=True)
 
 
 def run(ctx):
